@@ -206,8 +206,8 @@ def override_order(overrides: list[str], trace: list) -> list[str]:
 
 def case_term(job: dict, bi: int, b: dict, variant: str = VARIANT, ov_order: list[str] | None = None) -> tuple[str, dict]:
     """Coq term of type Run.C10.case for build number bi of the job, plus a small description."""
-    ns, pf, desc = job.get("ns", "ns"), job.get("pack_format", "48"), job.get("desc", "d")
     f = b["facts"]
+    ns, pf, desc = job.get("ns", "ns"), f.get("pack_format") or job.get("pack_format", "48"), job.get("desc", "d")
     ff = f.get("ff") or ("function" if float(pf) >= 48 else "functions")
     names = cert_names(b["before"], ns)
     cert_text = "\n".join(f"{k}={v}" for k, v in names)
@@ -414,15 +414,56 @@ FAULT_PATHS = ["data/ns/function/old.mcfunction", "data/ns/jmc.txt", "data/ns/fu
 FAULT_DIRS = ["data/ns", "data/ns/function", "data/minecraft/tags", "data/minecraft", "data/foo"]
 
 
+STATIC_DIRS = {"keep": "data/ns/keep", "../minecraft/keep": "data/minecraft/keep", "../foo/keepfoo": "data/foo/keepfoo"}
+FOREIGN_EDITS = [["data/other/function/b.mcfunction", "say b"], ["notes/todo.txt", "todo"], ["readme.txt", "changed"],
+                 ["data/other2/tags/function/t.json", '{"values": []}']]
+
+
+def user_edits(rng, job: dict, has: dict, state: dict) -> dict:
+    """What the user does to the output directory between two builds of the same process (strengthening round 2): adds,
+    overwrites and deletes files INSIDE the #static folders and foreign files elsewhere.  state = files known per folder."""
+    touch, remove = [], []
+    for st, d in STATIC_DIRS.items():
+        if not has.get(st):
+            continue
+        files = state.setdefault(st, sorted(p for p, c in job["init"] if c is not None and p.startswith(d + "/")))
+        k = rng.random()
+        if k < 0.45:
+            state["n"] = state.get("n", 0) + 1
+            new = f"{d}/{rng.choice(['', 'sub/', 'later/deep/'])}added{state['n']}.txt"
+            touch.append([new, f"added by the user {state['n']}"])
+            files.append(new)
+        if files and rng.random() < 0.3:
+            touch.append([rng.choice(files), "edited by the user"])
+        if len(files) > 1 and rng.random() < 0.25:
+            victim = rng.choice(files)
+            files.remove(victim)
+            touch[:] = [t for t in touch if t[0] != victim]
+            remove.append(victim)
+    if rng.random() < 0.3:
+        touch.append(list(rng.choice(FOREIGN_EDITS)))
+    out = {}
+    if touch:
+        out["touch"] = touch
+    if remove:
+        out["remove"] = remove
+    return out
+
+
 def gen_history(rng, n_builds=None) -> dict:
     job, has = gen_init(rng)
     n = n_builds or rng.choice([1, 2, 2, 3, 3, 4])
     builds = []
-    for _ in range(n):
+    state: dict = {}
+    for i in range(n):
         p = gen_project(rng, has)
         if p["kind"] == "valid" and rng.random() < 0.25:
             statics = p["header"] is not None and "#static" in p["header"]
             p["oserror_path"] = rng.choice(FAULT_PATHS if statics else FAULT_PATHS + FAULT_DIRS)
+        if i > 0 and rng.random() < 0.6:
+            p.update(user_edits(rng, job, has, state))
+        if i > 0 and rng.random() < 0.25:
+            p["pack_format"] = rng.choice(["26", "48", "61", "15"])      # the format changes between builds (both directions)
         builds.append(p)
     job["builds"] = builds
     return job
@@ -460,6 +501,19 @@ def fixed_histories() -> list[dict]:
         # deletion failure
         dict(base, init=[["data/ns/jmc.txt", cert], ["data/ns/function/old.mcfunction", "o"], ["data/ns/function/z/w.mcfunction", "w"]],
              builds=[dict(src=B, header=None, oserror_path="data/ns/function/old.mcfunction"), dict(src=B, header=None)]),
+        # (round 2) one process, same #static set in every build, the user edits the static folders in between
+        dict(base, init=[["data/ns/jmc.txt", cert], ["data/ns/keep/a.txt", "precious"], ["data/ns/function/old.mcfunction", "o"],
+                         ["data/minecraft/keep/m.txt", "m"]],
+             builds=[dict(src=B, header='#static "keep"\n#static "../minecraft/keep"'),
+                     dict(src=A, header='#static "keep"\n#static "../minecraft/keep"',
+                          touch=[["data/ns/keep/new.txt", "new"], ["data/ns/keep/a.txt", "edited"], ["data/minecraft/keep/sub/n.txt", "n"],
+                                 ["data/other/function/z.mcfunction", "say z"]]),
+                     dict(src=B, header='#static "../minecraft/keep"\n#static "keep"', remove=["data/ns/keep/a.txt"],
+                          touch=[["data/ns/keep/sub/deep/later.txt", "later"]]),
+                     dict(src=A, header='#static "keep"', touch=[["data/ns/keep/third.txt", "3"]])]),
+        # (round 2) the pack format crosses 48 between builds, in both directions: the other format's tag folder must not survive
+        dict(base, init=[], builds=[dict(src=A, header=None), dict(src=B, header=None, pack_format="26"),
+                                    dict(src=A, header=None, pack_format="26"), dict(src=B, header=None, pack_format="61")]),
         # override == minecraft, function named like the override namespace
         dict(base, init=[["data/ns/jmc.txt", cert], ["data/minecraft/function/v.mcfunction", "v"], ["data/ns/keep/a.txt", "p"]],
              builds=[dict(src=B + "\n" + fn("minecraft.mcf"), header="#override minecraft"),
@@ -587,8 +641,16 @@ def main(tier: str) -> int:
         reported.add(sig)
         prop_bits = code & (8 | 16 | 32 | 64)
         rec["prop"] = PROP
+        # (round 2) a run that ENDED IN AN ERROR after modifying the tree, where the model of the accepted behaviour predicts
+        # another result (e.g. success): the recorded history is a concrete failing input ("failed compiles change nothing"),
+        # not only a broken correspondence.  (The listed RTagErr finding is the case where the model agrees: code 0.)
+        failed_after_change = bool(code & 4) and info["result"] in ("ROsErr", "RTagErr", "RBuildErr", "RLexErr", "RHeaderErr") \
+            and bool(describe_change(rec["build"])) and not rec["job"]["builds"][rec["bi"]].get("oserror_path")
         if prop_bits:
             ck.violation(replay_obj(rec, "property-violated-on-real-run"))
+        elif failed_after_change:
+            ck.violation(replay_obj(rec, f"a compile that failed ({info['result']}: {rec['build']['exc']}) modified the tree, and the "
+                                         "model of the accepted behaviour does not predict this failure"))
         else:
             ck.violation(replay_obj(rec, "correspondence-differs (theorems of Props/C10.v no longer speak about this code); "
                                          "no property violation visible in this run"), no_input=True)
